@@ -239,6 +239,8 @@ type Def struct {
 	Fields     []Field    // DRecord; DProtocol: the steps
 	Computed   []Computed // DRecord
 	Base       string     // DEnum/DFlags: canonical primitive, "" = default (int32)
+	// BaseRef: when set, the base type is spelled as this reference to an alias that resolves to Base
+	BaseRef *Type `json:",omitempty"`
 	Values     []EnumVal
 	// ListValues: emit enum values as a YAML list (auto values) rather than a map.
 	ListValues bool
@@ -264,6 +266,7 @@ func (d *Def) Clone() *Def {
 	}
 	c.Values = append([]EnumVal(nil), d.Values...)
 	c.Type = d.Type.Clone()
+	c.BaseRef = d.BaseRef.Clone()
 	return &c
 }
 
